@@ -57,6 +57,7 @@ def run(pkg_path, harnesses, max_paths=20000, timeout_ms=60000, max_instrs=50000
     env.pop('GOSUMDB', None)
     from . import runner as _r
     env['VERIF_TIER'] = _r.tier()
+    env['CGO_ENABLED'] = '0'   # the embedded-QBE package has a pure-Go variant; cgo files cannot be loaded as SSA
     cmd = [GOSYM, '-dir', build.REPO, '-pkg', pkg_path, '-overlay', ov, '-harness', ','.join(harnesses),
            '-max-paths', str(max_paths), '-timeout-ms', str(timeout_ms), '-max-instrs', str(max_instrs)]
     try:
@@ -124,6 +125,7 @@ def replay(pkg_path, pkg_rel, harness, model):
     env = build.goenv()
     env['VERIF_MODEL'] = mf
     env['VERIF_HARNESS'] = harness
+    env['CGO_ENABLED'] = '0'
     from . import runner as _r
     env['VERIF_TIER'] = _r.tier()
     r = subprocess.run(['go', 'test', '-v', '-vet=off', '-count=1', '-overlay', ovf, '-run', 'TestZZVerifReplay', './' + pkg_rel],
